@@ -179,6 +179,13 @@ func (s *Server) proxyTCPRoute(c *gin.Context) {
 }
 
 func (s *Server) panicRoute(c *gin.Context, err any) {
+	if err == http.ErrAbortHandler {
+		// The reverse proxy aborts the request when the upstream response is
+		// interrupted. Abort the client connection rather than completing a
+		// truncated response.
+		panic(err)
+	}
+
 	s.logger.Error(
 		"handler panic",
 		zap.String("path", c.FullPath()),
